@@ -1,3 +1,5 @@
 //! Independent CQL v4 codec used as the trusted base of the oracles.
 pub mod prim;
+pub mod response;
+pub mod token;
 pub mod value;
